@@ -36,6 +36,7 @@ import Hertz.Proofs.ClientWire
 import Hertz.Proofs.ClientHosts
 import Hertz.Proofs.ClientHelper
 import Hertz.Gen.ClientHelper
+import Hertz.Gen.CloseIdle
 namespace Hertz.Props.C10
 open Hertz.Pool
 
@@ -429,6 +430,38 @@ TODO-OPEN (not proved here; checked at run time by harness/c10.go on every case)
    `sim.ok` (every event it emits is accepted by `step`), but `seq_program_accepted` has not been
    extended to it.  The janitor's period (10 s) and `MaxConnDuration` are real time in the harness.
 -/
+
+/-! ## `CloseIdleConnections` -/
+
+/-- `CloseIdleConnections` at the granularity of the pool model: ONE lock region in which EVERY idle connection leaves the
+pool (`reap a idle.length`), into the hands of the caller `a` alone; the closes follow outside the lock.  In every
+reachable state the step is enabled, empties the pool, and hands exactly the formerly idle connections to `a`. -/
+theorem close_idle_takes_every_idle_connection (cfg : Cfg) (evs : List Ev) (s : State) (a : Nat)
+    (_h : run cfg init evs = some s) (ha : auxBase ≤ a) :
+    ∃ s', step cfg s (.reap a s.idle.length) = some s' ∧ s'.idle = [] ∧ s'.held = s.idle ++ s.held ∧
+      (∀ c ∈ s.idle, s'.holder c = a) ∧ s'.count = s.count := by
+  refine ⟨{ s with idle := s.idle.drop s.idle.length, held := s.idle.take s.idle.length ++ s.held,
+                     holder := fun c => if c ∈ s.idle.take s.idle.length then a else s.holder c }, ?_, ?_, ?_, ?_, rfl⟩
+  · simp only [step, ha, Nat.le_refl, and_self, if_true]
+  · simp
+  · simp
+  · intro c hc
+    simp [hc]
+
+/-- … and from there on the invariants of every run apply: a connection taken this way is in nobody else's hands, in no
+`wantConn` and not in the pool, so a release that happens meanwhile can neither be closed by this call nor lose its slot
+(what seed C10-m7 broke by aliasing the idle list with the pool). -/
+theorem close_idle_connections_are_exclusive (cfg : Cfg) (evs : List Ev) (s s' : State) (a : Nat)
+    (h : run cfg init (evs ++ [.reap a s.idle.length]) = some s') (c : Nat) (hc : c ∈ s'.held) :
+    c ∉ s'.idle ∧ c ∉ s'.boxed ∧ c ∉ s'.closed ∧ s'.held.count c = 1 :=
+  exclusive_places cfg _ s' h c hc
+
+/-- the text of `HostClient.CloseIdleConnections` is the shape the step stands for: the idle list is COPIED under the lock,
+the pool's slots are cleared and the pool emptied before the unlock, the closes run on the copy afterwards -/
+theorem close_idle_matches_source :
+    Hertz.Gen.CloseIdle.stmts =
+      ["c.connsLock.Lock()", "scratch := append([]*clientConn{}, c.conns...)", "for i := range c.conns", "  c.conns[i] = nil",
+       "c.conns = c.conns[:0]", "c.connsLock.Unlock()", "for _, cc := range scratch", "  c.closeConn(cc)"] := by decide
 
 /-! ## the convenience layer: `GetURLTimeout` / `GetURLDeadline` (`Model/ClientHelper.lean`)
 
